@@ -24,6 +24,9 @@ CONS = {
 }
 
 
+SPLIT = {"True": True, "False": False, "auto": "auto"}
+
+
 def make_opt(directory, split, overwrite, cache_only, marker):
     import cotengra as ct
 
@@ -132,7 +135,7 @@ def main():
     if mode == "store":
         directory, split, overwrite, marker, plan, which = sys.argv[2:8]
         plan = json.loads(plan)
-        opt, cls = make_opt(directory, split == "True", overwrite, False, marker)
+        opt, cls = make_opt(directory, SPLIT[split], overwrite, False, marker)
         if plan[0] != "none":
             install(plan, directory)
         inputs, output, size = CONS[which]
@@ -140,7 +143,7 @@ def main():
         print(json.dumps({"crashed": False, "ran": cls.ran, "complete": tree.is_complete()}))
     elif mode == "query":
         directory, split, which, cache_only = sys.argv[2:6]
-        opt, cls = make_opt(directory, split == "True", "False", cache_only == "True", "reader")
+        opt, cls = make_opt(directory, SPLIT[split], "False", cache_only == "True", "reader")
         inputs, output, size = CONS[which]
         try:
             tree = opt.search(inputs, output, size)
